@@ -356,7 +356,7 @@ def gen_fills(rng, nmiss_list, tier):
     return fills
 
 
-def gen_case(rng, tier, op=None, backend=None):
+def gen_case(rng, tier, op=None, backend=None, fixed=None):
     op = op or rng.choice(list(OPS))
     backend = backend or rng.choice(OPS[op])
     case = {"op": op, "backend": backend, "params": {}, "fps": b64(rng.choice([30.0, 25.0, 24.0, 12.5]))}
@@ -387,6 +387,9 @@ def gen_case(rng, tier, op=None, backend=None):
     T = sum(comps)
     F = rng.choice([1, 2, 3, 4, 5]) if op != "interpolate" else rng.choice([2, 3, 4, 5, 6, 7])
     P = rng.choice([1, 1, 2])
+    if fixed:
+        F, P, comps, D = fixed
+        T = sum(comps)
     q = rng.choice([0.0, 0.1, 0.1, 0.2, 0.2, 0.3, 0.3, 0.5, 0.5, 0.8, 1.0])
     conf = gen_conf(rng, F * P * T, q)
     if rng.random() < 0.2 and T > 1:      # one point missing in every frame / one frame wholly missing
@@ -409,7 +412,7 @@ def gen_case(rng, tier, op=None, backend=None):
                 if rng.random() < 0.7:
                     pts = list(range(comps[c]))
                     rng.shuffle(pts)
-                    prm["points"][str(c)] = pts[:rng.randrange(1, comps[c] + 1)]
+                    prm["points"][str(c)] = pts[:rng.randrange(0 if rng.random() < 0.15 else 1, comps[c] + 1)]
     elif op == "select_frames":
         prm["frames"] = [rng.randrange(F) for _ in range(rng.randrange(0, F + 2))]
     elif op == "normalize":
@@ -423,7 +426,7 @@ def gen_case(rng, tier, op=None, backend=None):
     elif op == "flip":
         prm["axis"] = rng.randrange(D)
     elif op == "matmul":
-        E = D    # square matrices: a non-square one diverges value/mask shapes on torch/tf (C10's F16, not this property)
+        E = D if rng.random() < 0.7 else rng.choice([1, 2, 3])
         prm["mshape"] = [D, E]
         prm["matrix"] = [b64(rng.choice([0.0, 1.0, -1.0, 0.5, 2.0, round(rng.uniform(-2, 2), 2)])) for _ in range(D * E)]
     elif op == "augment2d":
@@ -563,10 +566,11 @@ def close(a, b, rtol, atol):
 
 
 def cmp_floats(name, got, exp, rtol, atol):
+    """atol: a number, or a function of the flat index (condition-aware tolerance)"""
     if len(got) != len(exp):
         return "%s: length %d (implementation) vs %d (model)" % (name, len(got), len(exp))
     for i, (a, b) in enumerate(zip(got, exp)):
-        if not close(a, b, rtol, atol):
+        if not close(a, b, rtol, atol(i) if callable(atol) else atol):
             return "%s[%d]: implementation %r, model %r" % (name, i, a, b)
     return None
 
@@ -576,8 +580,6 @@ def compare_vis(case, impl, model):
     op = case["op"]
     ierr, merr = "error" in impl, "error" in model
     if ierr or merr:
-        if op == "rep_points" and ierr and impl.get("error") == "RuntimeError":
-            return None   # torch .view on a non-contiguous tensor: stride rule not modelled (raises for every filling alike)
         return None if ierr == merr else "implementation %s, model %s" % ("raises" if ierr else "returns", "raises" if merr else "returns")
     rtol, atol = 2e-4, 2e-4
     if op == "rep_inner_angle":
@@ -601,6 +603,12 @@ def compare_vis(case, impl, model):
         return "missing pattern differs at flat index %d" % i
     if list(impl["cshape"]) != list(model["cshape"]):
         return "confidence shape %s vs %s" % (impl["cshape"], model["cshape"])
+    if op == "normalize_distribution" and "std" in model.get("extra", {}):
+        # (x - mu) / std cancels: the float32 rounding of x and mu (about 6e-8 |x|) is divided by std
+        sd = model["extra"]["std"]["vals"]
+        big = max([abs(v) for v in model["extra"]["mu"]["vals"]] + [1.0]) + 60.0
+        base = atol
+        atol = (lambda k: base + 4e-7 * big / max(abs(sd[k % len(sd)]), 1e-12)) if sd else base
     if values_ok:
         d = cmp_floats("conf", words_to_floats(impl["conf"], impl["conf_dtype"]), model["conf"], rtol, atol)
         if d:
@@ -636,7 +644,9 @@ class C09(common.Prop):
     ID = "C09"
     RUNNER = "c09"
     RUNNER_FLOATS = True
-    MODEL_FILES = ["base/Num.v", "base/Tensor.v", "model/C09_Masked.v", "model/C09_Ops.v", "model/C09_Run.v"]
+    # kernel primitives of PrimFloat that Print Assumptions prints unqualified (the concrete binary64 Examples and the refutation use them)
+    ALLOWED_AXIOMS = {"of_uint63", "ldshiftexp", "frshiftexp", "normfr_mantissa", "next_up", "next_down", "classify", "compare"}
+    MODEL_FILES = ["base/Num.v", "base/Tensor.v", "model/C09_Masked.v", "model/C09_Ops.v", "model/C09_Facts.v", "model/C09_Src.v", "model/C09_Run.v"]
     RULE = ("one operation x backend per case (selection, normalisation, linear transforms, interpolation, bounding boxes, focus, "
             "zero-filling, write/read, feature representations; NumPy / Torch / TensorFlow where the backend offers it) on a float32 pose "
             "(F<=7, P<=2, <=3 components, D 1..3, missing rate 0..1 incl. wholly missing points) under 4-5 fillings of the missing slots "
@@ -648,7 +658,7 @@ class C09(common.Prop):
                "harness/c09.py canonicalisers (NaN -> one word, -0.0 -> +0.0, errors -> one class, Torch/TF validity -> numpy mask polarity)"]
     ASSUMPTIONS = ["numpy.ma / torch / tensorflow kernels behave as transcribed in model/C09_Masked.v (sampled by the correspondence)",
                    "value/mask shapes of a masked tensor agree (C10); masks of a body are uniform over the coordinate axis (constructor)",
-                   "rounding, float32/float64 mixing, summation order, scipy quadratic/cubic splines, torch .view stride rule: not modelled",
+                   "rounding, float32/float64 mixing, summation order, scipy quadratic/cubic splines: not modelled",
                    "serialisation: the file keeps exactly the stored values and confidences (C01), the mask is rebuilt from the confidences"]
 
     def __init__(self):
@@ -662,11 +672,29 @@ class C09(common.Prop):
         return ["Gen_C09.v"]
 
     def gen_cases(self, rng, tier):
-        n = 260 if tier == "quick" else 5000
+        n = 600 if tier == "quick" else 30000
+        import translate_c09
+        changed = translate_c09.digests_changed()
+        if changed:      # DESIGN 3(c): a changed anchor never alarms by itself, it buys a larger differential run
+            print("NOTE C09: anchored functions changed since the model was written: %s - using the larger correspondence budget" % changed)
+            n = max(n, 3000)
         ops = list(OPS)
         for i in range(n):
             op = ops[i % len(ops)] if i < 4 * len(ops) else None      # every operation is exercised early
             yield gen_case(rng, tier, op=op)
+        if tier == "thorough":
+            # small scope, exhaustively: every missing pattern of a 2-frame, 1-person, 2-point pose, every body operation x backend
+            for op in ops:
+                if op.startswith("rep_"):
+                    continue
+                for be in OPS[op]:
+                    for pat in range(16):
+                        c = gen_case(rng, tier, op=op, backend=be, fixed=(2, 1, [2], 2))
+                        for i in range(4):
+                            c["conf"][i] = 0 if (pat >> i) & 1 else w32(0.5)
+                        nmiss = 2 * bin(pat).count("1")
+                        c["fills"] = [{"kind": k, "words": gen_fill(rng, k, nmiss)} for k in ("finite", "nan", "pinf", "mixed")]
+                        yield c
 
     def features(self, case):
         kinds = ",".join(sorted(f["kind"] for f in case["fills"]))
@@ -684,8 +712,6 @@ class C09(common.Prop):
         return [strip(o) for o in outs]
 
     def run_model(self, case, runner):
-        if case["op"] == "bbox" and case["shape"][3] != 2:
-            return None        # 3-D bbox raises (F11, owned by C15): both runs raise alike; not compared with the model
         outs = []
         for f, io in zip(case["fills"], case["_impl"]):
             req = model_request(case, f, io)
